@@ -464,7 +464,13 @@ static void check_parse(const Pars &p, const char *s, size_t slen, const Lit &L,
             mc::violation(mc::fmt("C12.%s.end.%s", p.name, kind), "%s(\"%s\"): *end = buf%+ld, the literal ends at %zu", p.name, vis(s, slen).c_str(), off, want_end);
         }
     }
-    // value
+    // value: infinities are a class of their own (DBL_MAX and inf are adjacent in the ulp ordering, but not the same answer)
+    if (std::isinf(got) != std::isinf(want) && !std::isnan(got))
+    {
+        mc::violation(mc::fmt("C12.%s.value.%s", p.name, std::isinf(want) ? "finite_instead_of_inf" : "inf_instead_of_finite"),
+                      "%s(\"%s\") = %.17g, strto%c gives %.17g", p.name, vis(s, slen).c_str(), got, p.flt ? 'f' : 'd', want);
+        return;
+    }
     unsigned long long u = ulps(p, got, want);
     if (u > worst && u != ~0ull)
         worst = u;
@@ -866,6 +872,61 @@ MC_INIT
         if (nt)
             mc::nontrivial();
         mc::more_cases(cases - 1, nt ? nt - 1 : 0);
+    });
+
+    // (7) exponent range: a few mantissas x exponents from 0 to far beyond what any accumulator holds (overflow to inf, underflow
+    //     through the denormals to 0, 2^31, 2^32, 2^64 digit strings, leading zeros) x signs x markers x terminators, five entry
+    //     points. Oracle as in (5); inf must meet inf; and every call must return (watchdog: signature ...exponent_range.hang)
+    mc::add_check("parse_exponent_range", [] {
+        static const char *const MANT[6] = {"0", "1", "1.5", "123.5", ".1", "9.999999999999999"};
+        static const int MFRAC[6] = {0, 0, 1, 1, 1, 15}, MDIG[6] = {1, 1, 2, 4, 1, 16};
+        static const char *const EXPS[] = {"0", "+0", "-0", "5", "22", "23", "-22", "-23", "37", "38", "39", "-37", "-45", "-46", "99", "-99", "100", "307", "308",
+                                           "309", "-307", "-308", "-323", "-324", "-325", "400", "-400", "4000", "-4000", "99999", "-99999", "100000", "-100001",
+                                           "2147483647", "2147483648", "-2147483648", "-2147483649", "4294967295", "4294967296", "4294967297", "-4294967296",
+                                           "4294967301", "99999999999", "-99999999999", "18446744073709551616", "18446744073709551621", "-18446744073709551616",
+                                           "00000000000000000005", "-00000000000000000005", "+00000000000000000000000000000000000000000000000000000000000000000308"};
+        static const int NEXP = sizeof EXPS / sizeof EXPS[0];
+        int c0 = mc::choose(6 * NEXP);
+        int mi = c0 / NEXP, ei = c0 % NEXP;
+        mc::describe("%se%s / %sE%s: 3 signs x 4 terminators x 5 entry points", MANT[mi], EXPS[ei], MANT[mi], EXPS[ei]);
+        long long ev = atoll(EXPS[ei]); // saturates at LLONG_MAX/MIN, only used to label violations
+        int evs = ev > 100000 ? 100000 : ev < -100000 ? -100000 : (int)ev;
+        static const char *const SG[3] = {"", "-", "+"};
+        static const char *const T[4] = {"", " ", "x", "e"};
+        uint64_t cases = 0, worst = 0;
+        char lit[160];
+        std::set<std::string> outs;
+        for (int mk = 0; mk < 2; mk++)
+            for (int sg = 0; sg < 3; sg++)
+                for (int t = 0; t < 4; t++)
+                {
+                    int n = snprintf(lit, sizeof lit, "%s%s%c%s", SG[sg], MANT[mi], mk ? 'E' : 'e', EXPS[ei]);
+                    int litlen = n;
+                    n += snprintf(lit + n, sizeof lit - n, "%s", T[t]);
+                    Lit L{MDIG[mi], MFRAC[mi], true, evs, MDIG[mi]};
+                    const char *s = exact_copy(lit, n);
+                    char *gend = nullptr;
+                    double wd = strtod(s, &gend);
+                    float wf = strtof(s, nullptr);
+                    size_t wend = gend - s;
+                    if (wend < (size_t)litlen)
+                        mc::harness_error("glibc strtod(\"%s\") ended at %zu, literal length %d", s, wend, litlen);
+                    for (int k = 0; k < NPARS; k++)
+                    {
+                        mc::crash_context("C12.%s.exponent_range", PARS[k].name); // + ".hang" / ".asan-..." / ".segv"
+                        check_parse(PARS[k], s, n, L, wd, wf, wend, worst);
+                        cases++;
+                    }
+                    outs.insert(std::isinf(wd) ? "inf" : wd == 0 ? "zero" : std::fpclassify(wd) == FP_SUBNORMAL ? "subnormal" : "normal");
+                    outs.insert(std::isinf(wf) ? "f-inf" : wf == 0 ? "f-zero" : std::fpclassify(wf) == FP_SUBNORMAL ? "f-subnormal" : "f-normal");
+                }
+        mc::crash_context("C12.harness");
+        for (auto &o : outs)
+            mc::outcome(o);
+        mc::count(mc::fmt("worst_ulp_distance_%llu", (unsigned long long)(worst > 200 ? 200 : worst)), 1);
+        if (mi && (ev > 99 || ev < -99))
+            mc::nontrivial();
+        mc::more_cases(cases - 1, (mi && (ev > 99 || ev < -99)) ? cases - 1 : 0);
     });
 }
 MC_MAIN
